@@ -1,5 +1,7 @@
 import SlugModel.Base.Path
 import SlugModel.Addr
+import SlugModel.Ignore
+import SlugModel.Unpack
 /-!
 Line-protocol driver: one request per line on stdin, one answer per line on stdout.
 Fields are separated by single spaces; every string is `x<hex of UTF-8 bytes>`.
@@ -96,6 +98,113 @@ def handleResolve (toks : List String) : String :=
     | some x => encAddr x
   | _, _ => "not-utf8"
 
+/-- `ignore <rulefile> <path>*` → per path `tt`/`tf`/`ff` (Excluded, Dominating), or `unsupported` -/
+def handleIgnore (args : List Str) : String :=
+  match args with
+  | [] => "bad-op"
+  | content :: paths =>
+    let rules := readRules content
+    if !supported rules then "unsupported"
+    else
+      String.intercalate " " (paths.map fun p =>
+        let r := excludes rules p
+        (if r.1 then "t" else "f") ++ (if r.2 then "t" else "f"))
+
+/-- `rules <rulefile>` → the parsed rule list `val:negated:negAfter,...` -/
+def handleRules (args : List Str) : String :=
+  match args with
+  | [content] =>
+    String.intercalate "," ((readRules content).map fun r =>
+      encStr r.val ++ ":" ++ encBool r.negated ++ ":" ++ encBool r.negAfter)
+  | _ => "bad-op"
+
+-- ---------- filesystem encoding ----------
+
+def pathOfStr (s : Str) : PPath := pathSegs s
+
+def strOfPath (p : PPath) : Str := '/' :: joinWith '/' p
+
+def decNat (s : String) : Option Nat := s.toNat?
+
+def decInt (s : String) : Option Int := s.toInt?
+
+/-- `path:kind:perm:mtime:payload` -/
+def decNode (item : String) : Option (PPath × Node) :=
+  match item.splitOn ":" with
+  | [p, k, perm, mt, pay] => do
+    let p ← decStr p
+    let perm ← decNat perm
+    let mt ← decInt mt
+    let pay ← decStr pay
+    match k with
+    | "d" => pure (pathOfStr p, .dir perm mt)
+    | "f" => pure (pathOfStr p, .file perm mt pay)
+    | "l" => pure (pathOfStr p, .link pay)
+    | "s" => pure (pathOfStr p, .special)
+    | _ => none
+  | _ => none
+
+def decFS (s : String) : Option FS :=
+  if s = "-" then some [] else (s.splitOn ",").mapM decNode
+
+def encNode (p : PPath) (n : Node) : String :=
+  let ps := encStr (strOfPath p)
+  match n with
+  | .dir perm mt => s!"{ps}:d:{perm}:{mt}:x"
+  | .file perm mt c => s!"{ps}:f:{perm}:{mt}:{encStr c}"
+  | .link t => s!"{ps}:l:0:0:{encStr t}"
+  | .special => s!"{ps}:s:0:0:x"
+
+def dedupKeys : List PPath → List PPath → List PPath
+  | [], acc => acc
+  | k :: r, acc => if acc.contains k then dedupKeys r acc else dedupKeys r (k :: acc)
+
+def encFS (fs : FS) : String :=
+  let keys := dedupKeys (fs.map (·.1)) []
+  let items := keys.filterMap fun k => (fs.get k).map fun n => (String.ofList (strOfPath k), encNode k n)
+  let sorted := items.toArray.qsort (fun a b => a.1 < b.1)
+  if sorted.isEmpty then "-" else String.intercalate "," (sorted.toList.map (·.2))
+
+/-- `name:typ:mode:mtime:link:body` -/
+def decEntry (item : String) : Option Entry :=
+  match item.splitOn ":" with
+  | [n, t, m, mt, l, b] => do
+    pure { name := ← decStr n, typ := Char.ofNat (← decNat t), mode := ← decNat m, mtime := ← decInt mt,
+           link := ← decStr l, body := ← decStr b }
+  | _ => none
+
+def decEntries (s : String) : Option (List Entry) :=
+  if s = "-" then some [] else (s.splitOn ",").mapM decEntry
+
+def decFault (s : String) : Option Fault :=
+  if s = "none" then some .none
+  else match s.toList with
+    | 'h' :: r => (String.ofList r).toNat?.map Fault.header
+    | 'b' :: r =>
+      match (String.ofList r).splitOn "." with
+      | [k, n] => do pure (.body (← k.toNat?) (← n.toNat?))
+      | _ => none
+    | _ => none
+
+def decStrList (s : String) : Option (List Str) :=
+  if s = "-" then some [] else (s.splitOn ",").mapM decStr
+
+def encUResult : UResult → String
+  | .ok => "ok"
+  | .illegal => "illegal"
+  | .ioerr => "io"
+
+/-- `unpack <priv> <cwd> <dst> <allow> <fault> <initfs> <entries>` → `<class> <fsdump>` -/
+def handleUnpack (toks : List String) : String :=
+  match toks with
+  | [priv, cwd, dst, allow, fault, initfs, entries] =>
+    match decStr cwd, decStr dst, decStrList allow, decFault fault, decFS initfs, decEntries entries with
+    | some cwd, some dst, some allow, some fault, some fs, some es =>
+      let (fs', r) := unpack cwd allow (priv = "1") dst fault fs es
+      encUResult r ++ " " ++ encFS fs'
+    | _, _, _, _, _, _ => "not-utf8"
+  | _ => "bad-op"
+
 def handle (line : String) : String :=
   match (line.trimAscii.toString.splitOn " ") with
   | "paths" :: fn :: rest =>
@@ -107,6 +216,15 @@ def handle (line : String) : String :=
     | none => "not-utf8"
     | some args => handleAddr fn args
   | "resolve" :: rest => handleResolve rest
+  | "unpack" :: rest => handleUnpack rest
+  | "ignore" :: rest =>
+    match rest.mapM decStr with
+    | none => "not-utf8"
+    | some args => handleIgnore args
+  | "rules" :: rest =>
+    match rest.mapM decStr with
+    | none => "not-utf8"
+    | some args => handleRules args
   | _ => "bad-op"
 
 partial def loop (hin : IO.FS.Stream) (hout : IO.FS.Stream) : IO Unit := do
